@@ -103,7 +103,16 @@ def default_render(ns, na, ne, rng: random.Random | None = None, plain=False):
         "outside_to_last": any(lo > 0 or lo + d <= 0 for lo, d in zip(slows, sd)) and rng.random() < 0.6,
         "ghost": any(lo > 0 or lo + d <= 0 for lo, d in zip(slows, sd)),
         "v0_int": rng.random() < 0.25,
+        "adiv": rng.choice([1, 1, 1, 2, 4]),
     }
+
+
+def action_array(render, na):
+    """The action space as the problem presents it: int32 rows, or float64 rows with fractional components
+    (render["adiv"] > 1: every component divided by adiv - e.g. order quantities in half units)."""
+    a = np.array(render["avecs"], dtype=np.int32).reshape(na, -1)
+    adiv = int(render.get("adiv", 1))
+    return a if adiv == 1 else a.astype(np.float64) / adiv
 
 
 def make_problem(mdp: dict):
@@ -119,7 +128,8 @@ def make_problem(mdp: dict):
     strides = np.array(
         [int(np.prod(sdims[i + 1:])) for i in range(len(sdims))], dtype=np.int32
     )
-    avecs = np.array(r["avecs"], dtype=np.int32).reshape(na, -1)
+    avecs = action_array(r, na)
+    afloat = avecs.dtype != np.int32
     evecs = np.array(r["evecs"], dtype=np.int32).reshape(ne, -1)
     # Row ns of every table is a GHOST row used for vectors outside the state space (only the all-zero
     # padding rows ever are): like a problem whose transition is arithmetic on the vector, an unlisted
@@ -181,6 +191,8 @@ def make_problem(mdp: dict):
             return idx
 
         def _aidx(self, action):
+            if afloat:
+                return jnp.argmax(jnp.all(j_avecs == jnp.asarray(action), axis=1))
             return jnp.argmax(jnp.all(j_avecs == jnp.asarray(action).astype(jnp.int32), axis=1))
 
         def _eidx(self, event):
